@@ -3,6 +3,7 @@ import VermouthProofs.C14_Groups
 import VermouthProofs.C14_Fix
 import VermouthProofs.C14_Loop
 import VermouthProofs.C14_Name
+import VermouthProofs.C14_Closure
 import VermouthProofs.Iso
 /-!
 # C14 — every unrecognised atom is explained by a known modification or reported
@@ -52,6 +53,24 @@ theorem groups_partition (m : Mol) (hk : m.keys.Nodup) :
 theorem flagged_is_extra (m : Mol) (a : Atom) (ha : a ∈ m.atoms) (hf : a.ptm = true) : a.key ∈ m.extra := by
   unfold Mol.extra
   exact List.mem_map.2 ⟨a, List.mem_filter.2 ⟨ha, by simp [isExtra, hf]⟩, rfl⟩
+
+/-- `traversal_complete`: the fuel the model gives the inner loop of `find_ptm_atoms` (`2 |E| + 2`) is
+enough for the worklist to run empty.  Hence every group is closed — an extra atom bonded to an atom of
+a group is in that group — and every anchor is a non-extra atom bonded to an atom of its group. -/
+theorem traversal_complete (m : Mol) (hk : m.keys.Nodup) :
+    ∀ g ∈ findPtmGroups m,
+      (∀ a ∈ g.1, a ∈ m.extra)
+      ∧ (∀ y ∈ g.1, ∀ x ∈ adjOf m.edges y, x ∈ m.extra → x ∈ g.1)
+      ∧ (∀ x ∈ g.2, x ∉ m.extra ∧ ∃ y ∈ g.1, x ∈ adjOf m.edges y) := by
+  intro g hg
+  have hnd := extra_nodup m hk
+  have hfuel : adjSum (adjOf m.edges) m.extra + 1 ≤ traverseFuel m := by
+    have := adjSum_adjOf_le m.edges m.extra hnd
+    unfold traverseFuel
+    omega
+  obtain ⟨h1, h2⟩ := findGroups_ok (adjOf m.edges) (fun x y h => adjOf_symm h) (traverseFuel m)
+    m.extra.length m.extra hnd hfuel g hg
+  exact ⟨h1, h2.closed, h2.anchors⟩
 
 /-! ## candidate placements: induced, anchors by name, added atoms by element -/
 
@@ -265,17 +284,9 @@ theorem step_label_or_remove (mods : List Modif) (orig : List Atom) (s : St) (ke
       obtain ⟨_, _, _, _, hl⟩ := foldl_applyOne_spec mods nIdxs (used ++ cov) s.mol.atoms hb
       exact hl hin e he
 
-/-- `label_or_remove_partial`.  What is proved is the statement per iteration (`step_label_or_remove`,
-with `identify_spec`, `cover_exact_count` and `groups_partition`): every atom of a processed group is,
-when the iteration ends, either absent with a warning naming it, or present, in exactly one placement
-of the cover, with the modification in the `modifications` of all atoms of the residues of the key;
-and `fix_ptm` never aborts (every iteration returns `done`).  NOT proved in Lean: the composition over
-the whole loop (that the sorted / grouped iterations are a rearrangement of `findPtmGroups`, that an atom
-labelled or removed by one iteration is not touched by a later one, and that the renamed atom carries
-the atom name of its pattern node).  Full statement aimed at:
-  fixPtm m mods given = .done s → ∀ a ∈ m.atoms, a.ptm → annot a = [] →
-    (a.key ∉ s.mol.keys ∧ ∃ w ∈ s.warnings, a.key ∈ w)
-    ∨ (a.key ∈ s.mol.keys ∧ ∃! (l, e), l ∈ s.log ∧ l.result = some (u, c) ∧ e ∈ c ∧ a.key ∈ patoms e.2 ∧ e.1 ∈ (atom a.key of s.mol).mods) -/
+/-- Whole-loop frame facts (used by `removal_is_reported`; the full statement is `label_or_remove`
+below): the loop always returns, warnings are never dropped, atoms never reappear, and an atom that
+disappears is named in a warning. -/
 theorem label_or_remove_partial (mods : List Modif) (orig : List Atom) :
     ∀ (its : List (List Int × List Group)) (s : St) (given : List (List (List Placement))),
       ∃ s', runIters mods orig s its given = .done s'
@@ -454,11 +465,18 @@ theorem runIters_own (mods : List Modif) (orig : List Atom) (horig : (orig.map (
         (fun it hit => hanch it (by simp [hit])) hex'
       exact ⟨s2, by simp only [runIters, hs1, hs2], hexp⟩
 
-/-- no anchor of a group is itself an extra atom (decidable; it holds whenever the traversal of
-`find_ptm_atoms` ran to completion, see `anchors_not_extra`) -/
+/-- `iterations_cover_groups`: sorting by anchor resids and `groupby` handle every group in exactly one
+iteration — the groups of all iterations, concatenated, are a rearrangement of the groups. -/
+theorem iterations_cover_groups (m : Mol) : ((iterations m).flatMap (·.2)).Perm (groupsOf m) :=
+  iterations_perm m
+
+/-- no anchor of a group is itself an extra atom (proved below from `traversal_complete`) -/
 def AnchorsNotExtra (m : Mol) : Prop := ∀ g ∈ findPtmGroups m, ∀ x ∈ g.2, x ∉ m.extra
 
 instance (m : Mol) : Decidable (AnchorsNotExtra m) := by unfold AnchorsNotExtra; infer_instance
+
+theorem anchors_not_extra (m : Mol) (hk : m.keys.Nodup) : AnchorsNotExtra m :=
+  fun g hg x hx => ((traversal_complete m hk g hg).2.2 x hx).1
 
 theorem dedupNat_eq_nil {l : List Nat} (h : dedupNat l = []) : l = [] := by
   cases l with
@@ -483,13 +501,19 @@ group that carries no annotation from the input (the ordinary case; all such ato
 `PTM_atom`) is, in the final molecule, either absent and named in an unknown-input warning, or present,
 in exactly one placement chosen by a cover search over the whole run (so never covered twice, never
 left uncovered), with the modifications of all placements of that iteration listed in the
-`modifications` of every surviving atom of the residues of the iteration's key.  (The chosen
-placement is a candidate of its fragment by `identify_spec`/`cover_sound`, i.e. induced, anchors by name,
-PTM atoms by element when the candidates pass `candsOk`; the renaming is `rename_spec`.) -/
+`modifications` of every surviving atom of the residues of the iteration's key.  Proof: `iterations_perm` (sort + groupby handle every group in exactly one iteration),
+`groups_partition`, `anchors_not_extra`, `step_label_or_remove`, and the loop invariant of
+`runIters_own` / `runIters_other` (an iteration removes only atoms of its own groups, its cover uses only
+non-PTM atoms and atoms / anchors of its own groups, key / resid / PTM flag never change, `modifications`
+only grow).  Per iteration the chosen placements are candidates of their fragments (`identify_spec`,
+`cover_sound`: induced, anchors by name, PTM atoms by element when the lists pass `candsOk`) and applying
+a placement renames as `rename_spec` / `rename_frame` say; `label_or_remove_partial_rename` names what is
+not composed over the loop. -/
 theorem label_or_remove (m : Mol) (mods : List Modif) (given : List (List (List Placement)))
-    (hk : m.keys.Nodup) (hanch : AnchorsNotExtra m) :
+    (hk : m.keys.Nodup) :
     ∃ s, fixPtm m mods given = .done s ∧
       ∀ g ∈ groupsOf m, usedOf (annotOf m.atoms) g = [] → ∀ a ∈ g.atoms, Explained m.atoms a s := by
+  have hanch := anchors_not_extra m hk
   obtain ⟨s, hs, _, _⟩ := removal_is_reported m mods given
   refine ⟨s, hs, ?_⟩
   intro g hg hu a hag
@@ -537,10 +561,10 @@ theorem label_or_remove (m : Mol) (mods : List Modif) (given : List (List (List 
 /-- the ordinary case spelled out: a molecule without annotations from `modify`; every flagged atom is
 explained -/
 theorem label_or_remove_flagged (m : Mol) (mods : List Modif) (given : List (List (List Placement)))
-    (hk : m.keys.Nodup) (hanch : AnchorsNotExtra m) (hno : ∀ b ∈ m.atoms, b.mods = []) :
+    (hk : m.keys.Nodup) (hno : ∀ b ∈ m.atoms, b.mods = []) :
     ∃ s, fixPtm m mods given = .done s ∧
       ∀ a0 ∈ m.atoms, a0.ptm = true → Explained m.atoms a0.key s := by
-  obtain ⟨s, hs, hall⟩ := label_or_remove m mods given hk hanch
+  obtain ⟨s, hs, hall⟩ := label_or_remove m mods given hk
   refine ⟨s, hs, ?_⟩
   intro a0 ha0 hp
   obtain ⟨_, _, hiff, _⟩ := groups_partition m hk
@@ -591,6 +615,41 @@ theorem rename_frame (mods : List Modif) (nIdxs : List Int) (atoms : List Atom) 
     exact ha (List.mem_map.2 ⟨y, hy, heq.symm⟩)
   rw [hl] at h
   exact h
+
+/-- `label_or_remove_partial_rename` (the remaining gap, stated precisely).  Proved: `rename_spec` (the
+placement that contains a PTM atom gives it the canonical name) and `rename_frame` (a placement that
+does not contain an atom leaves its attributes alone), both for ONE application of `applyOne`; and by
+`label_or_remove` the atom is in exactly one placement of the covers of the whole run.  NOT composed in
+Lean: that therefore the atom's `atomname` in the FINAL state is `canonName` of its pattern node (needs:
+the fold over the placements of its iteration and over all later iterations only meets `rename_frame`
+steps, `removeAtoms` keeps attributes, placements of the `used_mods` branch do not contain it, and the
+recorded candidates have distinct atoms).  Likewise the statement that the chosen placement is a
+candidate of the fragments of its iteration is available per iteration (`identify_spec`) but is not
+part of `Explained`, because the log does not record the residue.  What is stated here is the
+one-iteration consequence used by the oracle: a single chosen placement on a molecule. -/
+theorem label_or_remove_partial_rename (mods : List Modif) (nIdxs : List Int) (atoms : List Atom)
+    (c : Nat × Placement) (hp : (patoms c.2).Nodup) (a : Int) :
+    (a ∉ patoms c.2 → (atomAt (applyOne mods nIdxs atoms c) a).map (·.attrs) = (atomAt atoms a).map (·.attrs))
+    ∧ (∀ q ma nm b, (a, q) ∈ c.2 → (modAt mods c.1).atom? q = some ma → ma.ptm = true →
+        nameOf ma.attrs = some nm → ma.WF → atomAt atoms a = some b →
+        ∃ b', atomAt (applyOne mods nIdxs atoms c) a = some b' ∧ nameOf b'.attrs = some (canonName ma nm)) :=
+  ⟨rename_frame mods nIdxs atoms c hp a,
+   fun q ma nm b hq hma hptm hname hwf hb => rename_spec mods nIdxs atoms c hp a q hq ma hma hptm nm hname hwf b hb⟩
+
+/-- non-vacuity of `rename_spec`: pattern node `H2` with `replace: {atomname: HN2}`, atom called `X7` -/
+def exNH : Modif :=
+  { name := "NH",
+    atoms := [MAtom.mk 0 false [("atomname", some "N")] none,
+              MAtom.mk 1 true [("atomname", some "H2"), ("element", some "H")] (some [("atomname", some "HN2")])],
+    edges := [(0, 1)] }
+
+def exAtoms : List Atom :=
+  [Atom.mk 0 1 false false [] [("atomname", some "N")],
+   Atom.mk 7 1 true false [] [("atomname", some "X7"), ("element", some "H")]]
+
+example : ∃ b', atomAt (applyOne [exNH] [0, 7] exAtoms (0, [(0, 0), (7, 1)])) 7 = some b'
+    ∧ nameOf b'.attrs = some (some "HN2") ∧ aget b'.attrs "_old_atomname" = some (some "H2") :=
+  ⟨_, rfl, by decide, by decide⟩
 
 /-! ## witnesses -/
 
